@@ -56,6 +56,14 @@ def sh(cmd, cwd=None, timeout=3600, env=None):
         return 124, (e.stdout or b"").decode(errors="replace") if isinstance(e.stdout, bytes) else (e.stdout or "")
 
 
+SET = ""   # "" = token mutants, "-ast" = structural mutants (tools/mutgen ... ast)
+
+
+def F(name):
+    base, ext = os.path.splitext(name)
+    return os.path.join(OUT, base + SET + ext)
+
+
 def load(path):
     return [json.loads(l) for l in open(path)] if os.path.exists(path) else []
 
@@ -78,17 +86,17 @@ def gen():
     os.makedirs(OUT, exist_ok=True)
     tmp = "/tmp/mut-gen"
     repo_copy(tmp)
-    code, out = sh("go run . %s > %s/mutants.jsonl" % (tmp, OUT), cwd=os.path.join(ROOT, "tools", "mutgen"))
+    code, out = sh("go run . %s %s > %s" % (tmp, "ast" if SET else "", F("mutants.jsonl")), cwd=os.path.join(ROOT, "tools", "mutgen"))
     print(out.strip())
     shutil.rmtree(tmp, ignore_errors=True)
 
 
 def do_filter(workers):
-    muts = load(os.path.join(OUT, "mutants.jsonl"))
-    done = {r["id"]: r for r in load(os.path.join(OUT, "filter.jsonl"))}
+    muts = load(F("mutants.jsonl"))
+    done = {r["id"]: r for r in load(F("filter.jsonl"))}
     todo = [m for m in muts if m["id"] not in done]
     print(len(muts), "mutants,", len(todo), "to filter")
-    outf = open(os.path.join(OUT, "filter.jsonl"), "a")
+    outf = open(F("filter.jsonl"), "a")
 
     def work(w):
         repo = "/tmp/mut-filter-%d" % w
@@ -110,8 +118,8 @@ def do_filter(workers):
 
     with ThreadPoolExecutor(workers) as ex:
         list(ex.map(work, range(workers)))
-    res = {r["id"]: r["status"] for r in load(os.path.join(OUT, "filter.jsonl"))}
-    with open(os.path.join(OUT, "survivors.jsonl"), "w") as f:
+    res = {r["id"]: r["status"] for r in load(F("filter.jsonl"))}
+    with open(F("survivors.jsonl"), "w") as f:
         for m in muts:
             if res.get(m["id"]) == "survived":
                 f.write(json.dumps(m) + "\n")
@@ -129,10 +137,10 @@ def verif_copy(dst, repo):
 
 
 def do_score(workers, only, redo_missed, seed):
-    surv = load(os.path.join(OUT, "survivors.jsonl"))
+    surv = load(F("survivors.jsonl"))
     if only:
         surv = [m for m in surv if only in m["file"]]
-    sp = os.path.join(OUT, "scores.jsonl")
+    sp = F("scores.jsonl")
     prev = {}
     for r in load(sp):
         prev[r["id"]] = r
@@ -141,7 +149,8 @@ def do_score(workers, only, redo_missed, seed):
     outf = open(sp, "a")
 
     def work(w):
-        repo, ver = "/tmp/mut-repo-%d" % w, "/tmp/mut-verif-%d" % w
+        tag = SET + ("-" + only.replace("/", "_") if only else "")
+        repo, ver = "/tmp/mut-repo%s-%d" % (tag, w), "/tmp/mut-verif%s-%d" % (tag, w)
         repo_copy(repo)
         verif_copy(ver, repo)
         env = dict(ENV, VERIF_SEED=str(seed), VERIF_EVIDENCE_DIR=os.path.join(ver, "evidence-mut"))
@@ -174,13 +183,13 @@ def do_score(workers, only, redo_missed, seed):
 
 
 def report():
-    muts = load(os.path.join(OUT, "mutants.jsonl"))
-    filt = collections.Counter(r["status"] for r in {r["id"]: r for r in load(os.path.join(OUT, "filter.jsonl"))}.values())
+    muts = load(F("mutants.jsonl"))
+    filt = collections.Counter(r["status"] for r in {r["id"]: r for r in load(F("filter.jsonl"))}.values())
     scores = {}
-    for r in load(os.path.join(OUT, "scores.jsonl")):
+    for r in load(F("scores.jsonl")):
         scores[r["id"]] = r
     tri = {}
-    tp = os.path.join(OUT, "triage.json")
+    tp = F("triage.json")
     if os.path.exists(tp):
         tri = json.load(open(tp))
     by = collections.Counter(r["caught_by"] or "missed" for r in scores.values())
@@ -194,7 +203,7 @@ def report():
     for r in sorted(scores.values(), key=lambda r: (r["file"], r["line"])):
         if r["caught_by"] is None:
             lines.append("| %d | %s:%d | `%s` -> `%s` | `%s` | %s |" % (r["id"], r["file"], r["line"], r["old"], r["new"] or "(removed)", r["src"].replace("|", "\\|")[:110], tri.get(str(r["id"]), "")))
-    open(os.path.join(OUT, "REPORT.md"), "w").write("\n".join(lines) + "\n")
+    open(F("REPORT.md"), "w").write("\n".join(lines) + "\n")
     print("\n".join(lines[:30]))
 
 
@@ -202,6 +211,8 @@ if __name__ == "__main__":
     cmd = sys.argv[1]
     def opt(name, default):
         return sys.argv[sys.argv.index(name) + 1] if name in sys.argv else default
+    if "--set" in sys.argv:
+        SET = "-" + opt("--set", "")
     if cmd == "gen":
         gen()
     elif cmd == "filter":
